@@ -141,6 +141,18 @@ def w_plans(idx):
         root.add_namespace(None, "https://eml.ecoinformatics.org/eml-2.2.0")
         root.add_namespace("xsi", "http://www.w3.org/2001/XMLSchema-instance")
         evs.append(record_expand(root, {"items": items, "fault": fault, "namespaces": "default + prefixed, as after from_xml"}))
+        # the same plan on a tree that was a branch of a larger document and was taken out with remove_child (its stale
+        # parent pointer still names the old holder): the tree handed to expand is the tree that counts
+        if i % 2 == 0:
+            Node.store.clear()
+            root = build(items, fault, random.Random(i))
+            holder = Node("eml")
+            other = Node("dataset")
+            other.add_child(party("creator", ident=ID_OF(1), rnd=random.Random(i)))       # an unrelated branch that happens to use the same id
+            holder.add_child(other)
+            holder.add_child(root)
+            holder.remove_child(root)
+            evs.append(record_expand(root, {"items": items, "fault": fault, "tree": "branch detached from a larger document (stale parent pointer)"}))
         # the same plan with one more element that holds SEVERAL references nodes (to a definition without children and/or to
         # definitions with several children) between children of its own: "in the place of EACH references node"
         defs_ = [k for k, it in enumerate(items) if it["kind"] in ("def", "def0")]
